@@ -23,6 +23,9 @@ CAN = "y0.mutate.canonicalize_expr"
 QUANT = ("Probability", "PopulationProbability", "Sum", "Product", "Fraction", "One", "Zero")
 
 
+FLATTENERS: dict = {}  # qname -> "seq" (takes the factors) | "product" (takes a Product); filled by find_flatteners() on every run
+
+
 class CanonDenoter(Denoter):
     """recurse(canonicalize, x) denotes x (induction hypothesis); flatten helpers preserve the product."""
 
@@ -34,12 +37,12 @@ class CanonDenoter(Denoter):
 
     def d_seq(self, ex: Term) -> Mono:
         h = ex[0]
-        if h == "call" and isinstance(ex[1], str) and ex[1].startswith(CAN + "._flatten"):
+        if h in ("call", "recurse") and isinstance(ex[1], str) and ex[1] in FLATTENERS:
             arg = (list(ex[2]) + [v for _, v in ex[3]])[0]
-            if arg[0] in ("var", "attr"):
-                # _flatten_product(p): the factors of p, nested products expanded  ==  p
-                return self.d(arg)
-            return self.d_seq(arg)
+            # a verified flattener: the product of what it yields is the product of what it was given
+            return self.d(arg) if FLATTENERS[ex[1]] == "product" else self.d_seq(arg)
+        if h == "call" and ex[1] in ("iter", "list", "tuple") and len(ex[2]) == 1:
+            return self.d_seq(ex[2][0])
         if h == "comp" and len(ex[3]) == 1:
             pat, it, conds = ex[3][0]
             elt = ex[2]
@@ -71,7 +74,8 @@ def run(model: Model, rep: Report, tier: str) -> None:
     classes = concrete_expression_classes(model)
     canon = model.func(f"{CAN}.Canonicalizer.canonicalize")
     canon_cls = model.cls(f"{CAN}.Canonicalizer")
-    prims = set(DSL_PRIMS) | {f"{CAN}._flatten_product", f"{CAN}._flatten_expressions"}
+    helpers = find_flatteners(model, rep)
+    prims = set(DSL_PRIMS) | set(helpers)
     for K in classes:
         ev = Evaluator(model, primitives=prims, prim_methods={"_new", "__truediv__", "__mul__"})
         slf = typed(ev, "self", ("cls", canon_cls.qname))
@@ -134,33 +138,19 @@ def run(model: Model, rep: Report, tier: str) -> None:
                 if any(k_[0] == "all-copies-of" for k_ in got.exp):
                     extra = " (a filter removes every factor equal to the denominator, not one of them)"
                 rep.refuted("R10.1", cons, f"branch returns {got.show()} but the input denotes {want.show()}{extra}", loc(canon, p.line), sample=sample)
-    # flatten helpers: multiset preserving
-    for fn in ("_flatten_product", "_flatten_expressions"):
-        if not model.has_func(f"{CAN}.{fn}"):
-            continue
-        f = model.func(f"{CAN}.{fn}")
-        ev = Evaluator(model, primitives={f"{CAN}._flatten_product"} - {f.qname})
-        paths = return_paths(ev.run(f, {}))
-        ok, detail = _check_flatten(paths)
-        (rep.proven if ok else rep.refuted)("R10.1", construct(f, "multiset-preserving"), detail, loc(f))
     # R10.3
-    f = model.func(f"{CAN}.canonical_expr_equal")
-    ev = Evaluator(model, primitives={f"{CAN}.canonicalize", f"{DSL}.ensure_ordering"}, prim_methods={"get_variables"})
-    l, r = typed(ev, f.params[0], ("cls", EXPR)), typed(ev, f.params[1], ("cls", EXPR))
-    rets = return_paths(ev.run(f, {f.params[0]: l, f.params[1]: r}))
-    ok = False
-    detail = "canonical_expr_equal must canonicalise both sides with one ordering covering both and compare with =="
-    if len(rets) == 1 and rets[0].value[0] == "eq":
-        a, b = rets[0].value[1], rets[0].value[2]
-        if a[0] == "call" and b[0] == "call" and a[1] == b[1] == f"{CAN}.canonicalize":
-            ka, kb = dict(a[3]), dict(b[3])
-            ok = {ka.get("expression"), kb.get("expression")} == {l, r} and ka.get("ordering") == kb.get("ordering") and ka.get("ordering") is not None
-            if ok:
-                o = ka["ordering"]
-                ok = mentions(o, l) and mentions(o, r)
-                if not ok:
-                    detail += "; the ordering does not cover both expressions' variables"
-    (rep.proven if ok else rep.refuted)("R10.3", construct(f, "same-ordering"), "" if ok else detail, loc(f))
+    from ..refcmp import load_reference, run_table
+    load_reference(model, "yvref.c10", "c10_ref.py")
+    EX = ("cls", EXPR)
+
+    def mk3(model_, prims):
+        # canonicalize() and ensure_ordering() are looked into (an explicit ordering is passed through whatever the expression is);
+        # the canonicaliser object's own method is the primitive
+        return lambda: Evaluator(model_, primitives=set(prims) | {f"{DSL}._upgrade_ordering", f"{DSL}._sorted_variables", f"{CAN}.Canonicalizer.canonicalize"},
+                                 prim_methods={"get_variables", "canonicalize"})
+    run_table(model, rep, [("R10.3", f"{CAN}.canonical_expr_equal", "canonically_equal", {"left": EX, "right": EX}, (), "same-ordering",
+                            "both sides are canonicalised with ONE ordering that covers the variables of both and compared with ==")],
+              "yvref.c10", mk3, SetAlg(), construct=construct, loc=loc)
     # inherited obligations
     c13.r13_1(model, rep, classes)
     c13.r13_1b(model, rep)
@@ -211,31 +201,90 @@ def _check_sum_branch(rep, canon, cons, e, v, p):
     (rep.refuted if problems else rep.proven)("R10.1", cons, "; ".join(problems), loc(canon, p.line), sample={"returned": short(show(v), 240)})
 
 
-def _check_flatten(paths):
-    if len(paths) != 1:
-        return False, f"{len(paths)} paths"
-    v = paths[0].value
-    if not (v[0] == "call" and v[1] == "iter"):
-        return False, "not a generator"
-    seq = v[2][0]
-    pieces = []
-    while seq[0] == "accum" and seq[1] == "concat":
-        pieces.append((seq[3], seq[4]))
-        seq = seq[2]
-    if seq != ("listlit", ()) or len(pieces) != 2:
-        return False, "generator body is not `for e in xs: if isinstance(e, Product): yield from flatten(e) else: yield e`: " + short(show(v), 200)
-    ok_prod = ok_leaf = False
-    for payload, gens in pieces:
-        (pat, it, conds), = gens
-        if len(conds) != 1:
-            return False, "unexpected guard"
-        c = conds[0]
-        pos = c[0] == "isinstance" and c[1] == pat and "Product" in str(c[2])
-        neg = c[0] == "not" and c[1][0] == "isinstance" and c[1][1] == pat and "Product" in str(c[1][2])
-        if pos and payload[0] in ("recurse", "call") and pat in (list(payload[2]) + [x for _, x in payload[3]]):
-            ok_prod = True
-        if neg and payload == ("listlit", (pat,)):
-            ok_leaf = True
-    if ok_prod and ok_leaf:
-        return True, ""
-    return False, "a factor is dropped or duplicated while flattening: " + short(show(v), 200)
+def find_flatteners(model: Model, rep: Report) -> set:
+    """The module-level routines of the canonicaliser's module that re-yield the factors they are given, expanding nested products: each is
+    verified by induction on its own body (a recursive call, or a call of an already verified sibling, on the factors of a Product denotes that
+    Product; any other element is yielded itself; the two cases partition the elements), whatever it is called."""
+    from ..setalg import compare, f_and, f_not, f_or
+
+    FLATTENERS.clear()
+    mod_funcs = [fn for fn in model.funcs_in_module(CAN) if fn.cls is None and fn.name not in ("canonicalize", "canonical_expr_equal")]
+    names = {fn.qname for fn in mod_funcs}
+    sa = SetAlg()
+    pending = list(mod_funcs)
+    verdicts: dict = {}
+    for _round in range(3):
+        for fn in list(pending):
+            a = fn.node.args
+            params = [x.arg for x in a.posonlyargs + a.args]
+            if len(params) != 1:
+                pending.remove(fn)
+                continue
+            ev = Evaluator(model, primitives=names - {fn.qname})
+            prm = var(params[0])
+            try:
+                paths = return_paths(ev.run(fn, {params[0]: prm}))
+            except Exception:  # noqa: BLE001
+                pending.remove(fn)
+                continue
+            if len(paths) != 1:
+                continue
+            seq = paths[0].value
+            while seq[0] == "call" and seq[1] in ("iter", "list", "tuple") and len(seq[2]) == 1:
+                seq = seq[2][0]
+            pieces = []
+            while seq[0] == "accum" and seq[1] == "concat":
+                pieces.append((seq[3], seq[4]))
+                seq = seq[2]
+            if seq != ("listlit", ()) or not pieces:
+                continue
+            kind = None
+            conds_all = []
+            ok = True
+            why = ""
+            for payload, gens in pieces:
+                if len(gens) != 1:
+                    ok, why = False, "nested loops"
+                    break
+                pat, it, conds = gens[0]
+                src = it
+                while src[0] == "call" and src[1] in ("iter", "list", "tuple") and len(src[2]) == 1:
+                    src = src[2][0]
+                k_here = "seq" if src == prm else "product" if src == ("attr", prm, "expressions") else None
+                if k_here is None or (kind is not None and kind != k_here):
+                    ok, why = False, "does not iterate over what it is given"
+                    break
+                kind = k_here
+                c = f_and(*[sa.cond(x) for x in conds])
+                conds_all.append(c)
+                pl = payload
+                while pl[0] == "call" and pl[1] in ("iter", "list", "tuple") and len(pl[2]) == 1:
+                    pl = pl[2][0]
+                if pl == ("listlit", (pat,)):
+                    continue  # the element itself
+                if pl[0] in ("recurse", "call") and isinstance(pl[1], str) and (pl[1] == fn.qname or pl[1] in FLATTENERS):
+                    callee_kind = kind if pl[1] == fn.qname else FLATTENERS[pl[1]]
+                    arg = (list(pl[2]) + [v for _, v in pl[3]])[0]
+                    is_prod = sa.cond(("isinstance", pat, (f"{DSL}.Product",)))
+                    guarded = compare(f_and(c, f_not(is_prod)), False)[0]
+                    good_arg = arg == (pat if callee_kind == "product" else ("attr", pat, "expressions"))
+                    if guarded and good_arg:
+                        continue  # Π flatten(factors of a Product x) = x by induction
+                    ok, why = False, "a nested call does not expand exactly the factors of a Product element"
+                    break
+                ok, why = False, "an element is replaced by something that is neither itself nor its own factors: " + short(show(pl), 120)
+                break
+            if ok:
+                total = compare(f_or(*conds_all), True)[0]
+                disjoint = all(compare(f_and(conds_all[i], conds_all[j]), False)[0] for i in range(len(conds_all)) for j in range(i + 1, len(conds_all)))
+                if not total:
+                    ok, why = False, "a factor is dropped while flattening (the cases do not cover every element)"
+                elif not disjoint:
+                    ok, why = False, "a factor is duplicated while flattening (the cases overlap)"
+            verdicts[fn.qname] = (ok, why, fn)
+            if ok:
+                FLATTENERS[fn.qname] = kind
+                pending.remove(fn)
+    for q, (ok, why, fn) in sorted(verdicts.items()):
+        (rep.proven if ok else rep.refuted)("R10.1", construct(fn, "multiset-preserving"), "" if ok else why, loc(fn))
+    return names
